@@ -181,7 +181,7 @@ def mDropL (d : Backend) (cop : String) (o : Nat) (k : Kind) : Bool :=
   greater d (shapeK cop k) (.bin (opOf cop o)) || (k == .bin o && leftAssoc d (opOf cop o))
 def mDropR (d : Backend) (cop : String) (o : Nat) (k : Kind) : Bool :=
   greater d (shapeK cop k) (.bin (opOf cop o)) ||
-    ((Oper.bin (opOf cop o)).isLike && k == .bin 26) || (o == 25 && k == .atom 4)
+    ((Oper.bin (opOf cop o)).takesEscape && k == .bin 26) || (o == 25 && k == .atom 4)
 def mDropN (d : Backend) (cop : String) (k : Kind) : Bool := greater d (shapeK cop k) .un
 def mBound (d : Backend) (cop : String) (o : Nat) (k : Kind) : Bool :=
   greater d (shapeK cop k) (.bin (opOf cop o))
@@ -211,7 +211,7 @@ theorem leftAssoc_cop (d : Backend) (cop : String) (o : Nat) :
 theorem mDropL_cop (d : Backend) (cop : String) (o : Nat) (k : Kind) : mDropL d cop o k = mDropL d "" o k := by
   simp only [mDropL, greater_cop d cop, leftAssoc_cop d cop]
 theorem mDropR_cop (d : Backend) (cop : String) (o : Nat) (k : Kind) : mDropR d cop o k = mDropR d "" o k := by
-  simp only [mDropR, greater_cop d cop, Oper.isLike, Oper.isBin, isStd_opOf]
+  simp only [mDropR, greater_cop d cop, Oper.takesEscape, Oper.isBin, isStd_opOf]
 theorem mDropN_cop (d : Backend) (cop : String) (k : Kind) : mDropN d cop k = mDropN d "" k := by
   simp only [mDropN, greaterN_cop d cop]
 theorem mBound_cop (d : Backend) (cop : String) (o : Nat) (k : Kind) : mBound d cop o k = mBound d "" o k := by
@@ -224,7 +224,7 @@ def kindsOf (d : Backend) : List Kind :=
     (opsOf d).map .bin
 
 def mixN (o : Nat) : Option Nat :=
-  if o == 8 || o == 9 then some 0 else if o == 2 || o == 3 then some 26 else none
+  if o == 8 || o == 9 then some 0 else if o == 2 || o == 3 || o == 30 || o == 31 then some 26 else none
 
 /-- the child is not the separator node of the ternary form of `o` -/
 def regular (o : Nat) (k : Kind) : Bool :=
@@ -246,7 +246,7 @@ theorem agreeB (d : Backend) : ∀ o ∈ [8, 9], ∀ k ∈ kindsOf d,
     mBound d "" o k = (cellsOf d).dropML o k ∧ mBound d "" o k = (cellsOf d).dropMR o k := by
   cases d <;> decide +kernel
 /-- LIKE .. ESCAPE operands: the cells of the ESCAPE node -/
-theorem agreeE (d : Backend) : ∀ o ∈ [2, 3], ∀ k ∈ kindsOf d,
+theorem agreeE (d : Backend) : ∀ o ∈ [2, 3, 30, 31], o ∈ opsOf d → ∀ k ∈ kindsOf d,
     (cellsOf d).dropML o k = (cellsOf d).dropL 26 k ∧ (cellsOf d).dropMR o k = (cellsOf d).dropR 26 k := by
   cases d <;> decide +kernel
 
